@@ -1,5 +1,6 @@
 import NutilsVerif.Core.Proto
 import NutilsVerif.Model.C11
+import NutilsVerif.Model.C11Alg
 open NutilsVerif NutilsVerif.Proto NutilsVerif.C11
 
 /-!
@@ -203,8 +204,47 @@ def queryChain (q : String) : List Chain :=
     | _ => []
   | [] => []
 
+/-! ### containers: items are words of atoms, `mul` = concatenation, `der` from a table in the request -/
+
+abbrev W := List Nat
+
+def pWord : P W := do pMany (← pNat) pNat
+
+def pDerTab : P (List ((Bool × W) × List W)) := do
+  pMany (← pNat) (do let t ← pBool; let w ← pWord; let cs ← pMany (← pNat) pWord; pure ((t, w), cs))
+
+partial def pAlg (o : Alg.Ops W) : P (Alg.Seq W) := do
+  match (← tok) with
+  | "fromiter" => do let l ← pMany (← pNat) pWord; pure (Alg.fromIter l)
+  | "uniform" => do let w ← pWord; let n ← pNat; pure (Alg.uniformS w n)
+  | "take" => do let s ← pAlg o; let idx ← pMany (← pNat) pNat; pure (Alg.takeS o s idx)
+  | "compress" => do let s ← pAlg o; let m ← pMany (← pNat) pBool; pure (Alg.compressS o s m)
+  | "repeat" => do let s ← pAlg o; let c ← pNat; pure (Alg.repeatS s c)
+  | "product" => do let a ← pAlg o; let b ← pAlg o; pure (Alg.productS o a b)
+  | "chain" => do let a ← pAlg o; let b ← pAlg o; pure (Alg.chainS o a b)
+  | "children" => do let s ← pAlg o; pure (Alg.derivedS o false s)
+  | "edges" => do let s ← pAlg o; pure (Alg.derivedS o true s)
+  | _ => failure
+
+def showWord (w : W) : String := ".".intercalate (w.map toString)
+
+def handleAlg (tab expr : String) : String :=
+  match parseAll pDerTab tab with
+  | none => "bad-request"
+  | some tab =>
+    let o : Alg.Ops W := { mul := fun a b => a ++ b, der := fun t w => (tab.lookup (t, w)).getD [] }
+    match parseAll (pAlg o) expr with
+    | none => "bad-request"
+    | some s =>
+      let l := s.toList o
+      let gets := (List.range (s.len o)).map fun i => match s.get o i with
+        | some w => showWord w
+        | none => "none"
+      s!"{s.shape}|{s.len o}|{" ".intercalate (l.map showWord)}|{" ".intercalate gets}"
+
 def handle (line : String) : String :=
   match fields line with
+  | ["alg", tab, expr] => handleAlg tab expr
   | ["item", it] =>
     match parseAll pItem it with
     | some it =>
